@@ -140,8 +140,16 @@ def run_input(ctx, i):
     def regf(r):
         return [aa.reg.Constant(coefficient=float(r.uniform(0.2, 2.0))), aa.reg.Zeroth(coefficient=float(r.uniform(0.3, 2.0)))][int(r.integers(2))]
 
-    objs, desc = gen_aa.linear_objects(aa, rng, case, allow_unregularized=True, reg_factory=regf)
-    if not any(d["kind"] != "func" for d in desc):            # the w-tilde formalism needs at least one mapper
+    only_functions = (i % 4 == 3)     # inversions of function lists alone (always the mapping formalism, single regularization fast path)
+    if only_functions:
+        objs, desc = gen_aa.linear_objects(aa, rng, case, nobj=1 if i % 8 == 3 else 2, kinds=("func",), allow_unregularized=False)
+        for o_, d_ in zip(objs[1:], desc[1:]):
+            if rng.random() < 0.5:
+                o_.regularization = None
+                d_["regularized"] = False
+    else:
+        objs, desc = gen_aa.linear_objects(aa, rng, case, allow_unregularized=True, reg_factory=regf)
+    if not only_functions and not any(d["kind"] != "func" for d in desc):            # the w-tilde formalism needs at least one mapper
         mp, d = gen_aa.mapper(aa, rng, case["mask"], case["ds"].grids.pixelization.over_sampler, "rect", aa.reg.Constant(coefficient=1.0))
         d.update({"params": int(mp.params), "regularized": True})
         objs.append(mp)
@@ -229,7 +237,7 @@ def run_input(ctx, i):
                     ctx.monitors["slot.consulted:operated_mapping_matrix"] += 1
                 if "regularization_matrix" in subset and delta.get("H.constant", 0) == 0 and delta.get("H.zeroth", 0) == 0:
                     ctx.monitors["slot.consulted:regularization_matrix"] += 1
-                if "w_tilde" in subset and use_w and delta.get("w_tilde.build", 0) == 0:
+                if "w_tilde" in subset and use_w and not only_functions and delta.get("w_tilde.build", 0) == 0:
                     ctx.monitors["slot.consulted:w_tilde"] += 1
                 if "log_det_regularization_matrix_term" in subset and q["logdet_h"] == cand["log_det_regularization_matrix_term"]:
                     ctx.monitors["slot.consulted:log_det_regularization_matrix_term"] += 1
@@ -245,7 +253,7 @@ def run_input(ctx, i):
             bad += [k for k in ("s", "mapped") if not relclose(b[k], a[k], 1e-6)]
         ctx.check(not bad, "formalism.values", differing=bad, **W0)
         st = aa.SettingsInversion(use_w_tilde=True, use_positive_only_solver=positive, no_regularization_add_to_curvature_diag_value=1e-3)
-        for flag, expect in ((False, "InversionImagingMapping"), (True, "InversionImagingWTilde")):
+        for flag, expect in ((False, "InversionImagingMapping"), (True, "InversionImagingMapping" if only_functions else "InversionImagingWTilde")):
             inv = aa.Inversion(dataset=twin(), linear_obj_list=objs, settings=st, preloads=aa.Preloads(use_w_tilde=flag))
             ctx.check(type(inv).__name__ == expect, "formalism.selected_by_preloads", flag=flag, got=type(inv).__name__)
             try:
@@ -266,7 +274,10 @@ def run_input(ctx, i):
             raised = "InversionException"
         except Exception as e:
             raised = repr(e)[:100]
-        ctx.check(raised == "InversionException", "noise_map.mismatch_raises", raised=raised, **W0)
+        if only_functions:
+            ctx.skipped["noise_map.mismatch:function_lists_only(mapping formalism, w_tilde preload not consulted)"] += 1
+        else:
+            ctx.check(raised == "InversionException", "noise_map.mismatch_raises", raised=raised, **W0)
         ctx.case("formalisms", case["m"], case["k"], case["d"], nontrivial=True, cls=["formalism_comparison"], sample=None)
 
 
